@@ -73,6 +73,7 @@ def make_leaf_class(torch, BaseGenerator):
             self.size = self.sizes[0]
             self.calls = 0
             self.log = []           # columns of every draw
+            self.returned = []      # (object handed out, its tensors): must never be mutated by a consumer
 
         def get_examples(self):
             k = self.calls
@@ -81,9 +82,19 @@ def make_leaf_class(torch, BaseGenerator):
             cols = [[point_value(self.leaf_id, k, i, j) for i in range(n)] for j in range(self.dims)]
             self.log.append(cols)
             ts = [torch.tensor([float(v) for v in c], dtype=torch.float64, requires_grad=True) for c in cols]
-            if self.dims == 1 and self.form != 'list1':
-                return ts[0]
-            return tuple(ts) if self.form == 'tuple' else ts
+            out = ts[0] if (self.dims == 1 and self.form != 'list1') else (tuple(ts) if self.form == 'tuple' else ts)
+            self.returned.append((out, list(ts)))
+            return out
+
+        def mutated(self):
+            """None, or a description of a handed-out object that no longer holds what was handed out"""
+            for k, (out, ts) in enumerate(self.returned):
+                now = [[int(round(v)) for v in t.detach().reshape(-1).tolist()] for t in ts]
+                if now != self.log[k]:
+                    return f'tensors of draw {k} of leaf L{self.leaf_id} now hold {[len(c) for c in now]} values per dimension, handed out {[len(c) for c in self.log[k]]}'
+                if isinstance(out, (list, tuple)) and (len(out) != len(ts) or any(a is not b for a, b in zip(out, ts))):
+                    return f'the {type(out).__name__} handed out as draw {k} of leaf L{self.leaf_id} was modified in place'
+            return None
 
     return SpyLeaf
 
@@ -92,11 +103,14 @@ def spy_on(gen, torch):
     """Record everything `gen.get_examples()` returns (instance-level wrapping, process-local)."""
     inner = gen.get_examples
     gen._spy_log = []
+    gen._spy_raw = []        # (object returned, members, snapshot) to detect later in-place modification
 
     def wrapped():
         out = inner()
         try:
-            gen._spy_log.append(to_cols(out, torch)[1])
+            cols = to_cols(out, torch)[1]
+            gen._spy_log.append(cols)
+            gen._spy_raw.append((out, list(out) if isinstance(out, (list, tuple)) else [out], cols))
         except Malformed as e:
             gen._spy_log.append(('malformed', str(e)))
         return out
@@ -142,3 +156,18 @@ def zcols_list(draws):
 
 def natlist(xs):
     return '[' + ';'.join(f'{int(x)}%nat' for x in xs) + ']'
+
+
+def raw_mutated(raws, torch):
+    """raws: [(object, members, snapshot columns)] -> None or a description of the first object modified in place"""
+    for k, (out, members, cols) in enumerate(raws):
+        try:
+            now = to_cols(out, torch)[1]
+        except Malformed as e:
+            return f'object returned by call {k} is now malformed: {e}'
+        if now != cols:
+            return (f'the {type(out).__name__} returned by call {k} now holds {[len(c) for c in now]} values per dimension, '
+                    f'it held {[len(c) for c in cols]} when it was returned')
+        if isinstance(out, (list, tuple)) and (len(out) != len(members) or any(a is not b for a, b in zip(out, members))):
+            return f'the {type(out).__name__} returned by call {k} was modified in place'
+    return None
